@@ -302,7 +302,12 @@ def report(inp):
                 if abs(v_shown - Fraction(float(vals[k]))) > max(v_unit, e_unit) / 2:
                     r = {"got": row[0], "expected": repr(float(vals[k])), "witness_class": "summary:value"}
             if not r and inp["asymmetric"]:
-                r = close_to_shown(cells[3], asym[k][0], "summary:down") or close_to_shown(cells[4], asym[k][1], "summary:up")
+                hdr = [re.split(r"\s{2,}", l.strip()) for l in head if l.strip().startswith("Par name")]
+                cols = re.split(r"\s{2,}", row[0].strip())
+                if not hdr or "Par err down" not in hdr[0] or "Par err up" not in hdr[0]:
+                    r = {"got": hdr, "expected": "columns 'Par err down' and 'Par err up'", "witness_class": "summary:asymmetric-columns-missing"}
+                else:          # the numbers are read from the columns the HEADER names, not by position
+                    r = close_to_shown(cols[hdr[0].index("Par err down")], asym[k][0], "summary:down") or close_to_shown(cols[hdr[0].index("Par err up")], asym[k][1], "summary:up")
         if r:
             return r
     # result dictionary: the held numbers themselves
